@@ -206,3 +206,79 @@ PROPS["C18"] = {
     "explanation": "sharding by any hash function refines a flat map (all histories, all hash functions); the real Store's results, hashes and shard indices replayed on the model, "
                    "hash determinism and no-aliasing monitored on the real code under two toolchains",
 }
+
+PROPS["C09"] = {
+    "props_files": ["Props/C09.v"],
+    "go_tests": ["TestVerifPolicy"],
+    "go_tests_root": ["TestVerifRootAdmission"],
+    "level": "proof",
+    "rule": "policy correspondence as for C07 (the admission decision is part of every replayed Set); plus MEASUREMENTS on real caches through the public builders: "
+            "hot set (10/30/50% of MaxSize) read with a 50/80% share while fresh never-read keys are inserted, 40*MaxSize operations, hit ratio of the hot set over the last quarter "
+            "(threshold 0.90; observed minimum 0.95-0.98); Zipf(0.8/1.0/1.2) traces of 60*MaxSize operations over a universe of 20*MaxSize keys against an LRU of the same size "
+            "(threshold LRU-0.01, LRU-0.03 below MaxSize 1000; observed theine >= LRU+0.019); MaxSize 50..5000 (quick) and up to 100000 (thorough); plain and loading caches; "
+            "fresh caches and caches first used by eight goroutines running the same workload concurrently",
+    "trusted_base": [KERNEL, EXTRACT, HARNESS,
+                     "the convergence / hit-ratio claims are measured, not proved (statistical thresholds with margins chosen from the unchanged tree)",
+                     "modelled, not verified: float32 hill climber (input of the model)"],
+    "assumptions": ["thresholds: hot-set hit ratio >= 0.90, Zipf hit ratio >= LRU - 0.01 (0.03 for MaxSize < 1000)"],
+    "impl_only_traces": ["admission"],
+    "monitor_tags": ["C09"],
+    "timeout": {"quick": 900, "thorough": 3000},
+    "explanation": "admission-rule theorems on the policy model; hit ratios measured on the real caches",
+}
+
+PROPS["C19"] = {
+    "props_files": ["Props/C19.v"],
+    "go_tests": [],
+    "race_tests": ["TestVerifRace", "TestVerifCountersConcurrent", "TestVerifWaitConcurrent", "TestVerifHybridSlow"],
+    "level": "proof",
+    "rule": "lock table regenerated from the sources on every run (one row per field access reachable from the public API); in addition, as a search for a failing schedule only, "
+            "the concurrent harnesses (all public operations of plain, loading and hybrid stores incl. Persist, Range, Wait, Close with a removal listener) are built with -race and run",
+    "trusted_base": [KERNEL, "go/lockscrape (go/ssa based must-lockset analysis: intraprocedural dataflow, entry locksets as greatest fixpoint over call sites, function values resolved through "
+                     "struct fields and parameters, reachability from the root package) - a bug there can hide an unguarded access",
+                     "type-level abstraction: accesses and locks are named Type.field; that the lock instance belongs to the object accessed is not checked",
+                     "classification tables in go/lockscrape/main.go: confined types and fields (thread-owned or handed over by channel / atomic publication), ownership sites "
+                     "(entry already removed from its shard map), constructors (New* and helpers called only from them), entry-pool-only branches",
+                     "Go memory model, sync.Mutex / sync.RWMutex, RBMutex (taken as a reader/writer lock), sync/atomic"],
+    "assumptions": ["entry pool disabled", "the race detector runs are a search aid, not part of the proof"],
+    "impl_only_traces": ["race", "counters", "waitconc", "hybridslow"],
+    "monitor_tags": ["C19"],
+    "timeout": {"quick": 900, "thorough": 2400},
+    "explanation": "lockset theorem over a table scraped from the sources; discipline of the current table checked by computation in Coq; -race runs as search",
+}
+
+
+def c19_extra(pid, tier, seed, outdir):
+    """Evaluate the discipline on the scraped table outside Coq as well, to name the offending fields and sites."""
+    import os, collections
+    tsv = os.path.join(os.path.dirname(os.path.dirname(os.path.dirname(os.path.abspath(__file__)))), "build", "gen", "locks.tsv")
+    out = {"broken": [], "coverage": {}}
+    if not os.path.exists(tsv):
+        out["broken"].append("lock table was not generated (go/lockscrape failed)")
+        return out
+    acc = collections.defaultdict(list)
+    kinds = collections.Counter()
+    for l in open(tsv):
+        if l.startswith("#") or not l.strip():
+            continue
+        f, k, ls, fn, pos = l.rstrip("\n").split("\t")
+        kinds[k] += 1
+        if k in "rw":
+            acc[f].append((k, set(x for x in ls.split(",") if x), fn.split("internal.")[-1], pos))
+    bad = []
+    for f, a in sorted(acc.items()):
+        writes = [x for x in a if x[0] == "w"]
+        if not writes:
+            continue
+        locks = set(l.split(":")[0] for x in a for l in x[1])
+        if not any(all(any(l.split(":")[0] == L for l in x[1]) for x in a) and all((L + ":x") in x[1] for x in writes) for L in locks):
+            sites = ["%s %s [%s] %s" % (x[0], x[3], ",".join(sorted(x[1])), x[2]) for x in a if x[0] == "w" or not x[1]][:6]
+            bad.append("%s: no lock guards all of its %d plain accesses (%d writes); e.g. %s" % (f, len(a), len(writes), "; ".join(sites)))
+    for b in bad[:5]:
+        out["broken"].append("lock discipline: " + b)
+    out["coverage"] = {"lock_table_rows": sum(kinds.values()), "lock_table_kinds": dict(kinds), "fields_with_plain_accesses": len(acc),
+                       "fields_breaking_discipline": len(bad)}
+    return out
+
+
+PROPS["C19"]["extra"] = c19_extra
